@@ -10,6 +10,7 @@ from __future__ import annotations
 import dataclasses
 import ast
 import itertools
+import os
 import random
 import typing
 
@@ -47,6 +48,38 @@ def _bytes_of(model: z3.ModelRef, seq: typing.Any) -> bytes:
     return bytes(out)
 
 
+SECOND_OPINION = False  # thorough tier: every discharged query is also given to the cvc5 binary
+SECOND = {"asked": 0, "agree": 0, "unavailable": 0, "disagree": []}
+
+
+def _second_opinion(s: z3.Solver, name: str) -> None:
+    """z3 said unsat: ask cvc5 1.0 the same question (SMT-LIB 2 text as z3 prints it).  A parse error or a
+    time-out is 'unavailable' (recorded, not a verdict); 'sat' from cvc5 is a disagreement - the obligation is then
+    reported as not discharged."""
+    import subprocess
+    import tempfile
+
+    SECOND["asked"] += 1
+    text = "(set-logic ALL)\n" + s.to_smt2()
+    with tempfile.NamedTemporaryFile("w", suffix=".smt2", delete=False) as f:
+        f.write(text)
+        path = f.name
+    try:
+        p = subprocess.run(["cvc5", "--strings-exp", "--tlimit=20000", path], capture_output=True, text=True, timeout=40)
+        out = (p.stdout + p.stderr).strip().splitlines()
+        verdict = out[0].strip() if out else ""
+    except Exception:  # noqa: BLE001
+        verdict = ""
+    finally:
+        os.unlink(path)
+    if verdict == "unsat":
+        SECOND["agree"] += 1
+    elif verdict == "sat":
+        SECOND["disagree"].append(name)
+    else:
+        SECOND["unavailable"] += 1
+
+
 def _discharge(it: Interp, name: str, obligation: str, paths: list[I.Path],
                prop_of: typing.Callable[[I.Path], typing.Any], assumptions: list[typing.Any],
                cex: typing.Callable[[z3.ModelRef, I.Path], dict[str, typing.Any]]) -> Result:
@@ -58,6 +91,12 @@ def _discharge(it: Interp, name: str, obligation: str, paths: list[I.Path],
         if goal is True:
             continue
         r, s = it.check(*assumptions, *p.pc, z3.Not(goal) if I.is_sym(goal) else (not goal))
+        if r == z3.unsat and SECOND_OPINION:
+            _second_opinion(s, name)
+            if SECOND["disagree"]:
+                res.status = "unknown"
+                res.detail = f"cvc5 answers sat where z3 answers unsat ({name})"
+                break
         if r == z3.sat:
             res.status = "sat"
             res.counterexample = cex(s.model(), p)
